@@ -492,7 +492,7 @@ inductive IStmt where
   | ifsetRecip (x y z : String)
   /-- `if self.f == c1: self.g1 = n1  elif self.f == c2: self.g2 = n2 …` -/
   | case (field : String) (arms : List (String × String × String))
-  deriving Repr
+  deriving Repr, DecidableEq
 
 def encArms : List (String × String × String) → List String
   | [] => []
